@@ -116,6 +116,19 @@ def explore(ctx, per_spec, sizes):
             case = dict(spec=spec.name, n=n, flavour=flavour, n_labeled=n_lab, b=int(b), oracle=oracle, seed=seed,
                         X=data["X"], y=data["y"], y_true=data["y_true"])
             evaluate(ctx, spec, data, case, lines, checks)
+        if spec.skeleton == "B":
+            # the last cycles of a run on a larger pool (distinct points, several labels, few unlabeled samples left, batch of
+            # 2-4): quotas per cluster / leaf have to be redistributed there (seeds R6C01, R8C14)
+            for _ in range(per_spec * 2):
+                nrs = np.random.RandomState(rng.randrange(2**31 - 1))
+                n = rng.randint(14, 30)
+                u = rng.randint(3, 9)
+                data = make_data(nrs, n, spec.kind, "random", n_labeled=n - u, classes=spec.classes or (0, 1, 2))
+                b = rng.choice([2, 3, 4])
+                case = dict(spec=spec.name, n=n, flavour="random", n_labeled=n - u, b=int(b), oracle="true", seed=rng.randrange(10**6),
+                            X=data["X"], y=data["y"], y_true=data["y_true"])
+                ctx.count("end_of_run_loops")
+                evaluate(ctx, spec, data, case, lines, checks)
     outs = vlib.run_driver(lines)
     for line, out, (case, expect) in zip(lines, outs, checks):
         if out.strip() != expect:
@@ -134,7 +147,9 @@ def evaluate(ctx, spec, data, case, lines, checks):
     if err:
         kind = "raises" if not err.startswith(("index", "non-termination")) else err.split(":")[0]
         Xp = np.asarray(data["X"], dtype=float)
-        if kind == "raises" and len(np.unique(Xp, axis=0)) < len(Xp):
+        if kind == "raises":
+            kind += "/" + _pool.err_sig(err)
+        if kind.startswith("raises") and len(np.unique(Xp, axis=0)) < len(Xp):
             kind += "/duplicated-points-in-pool"       # precondition class (part of the key a known finding is matched by)
         ctx.violate(f"C14/{spec.name}/{kind}", f"pool loop with {spec.name}: cycle {len(trace)} failed: {err}", case)
         return
